@@ -371,7 +371,8 @@ def skipCols (kind : Nat) (wper perline : Nat) (cols : Int) : Nat → Int → St
       | some elems =>
         let after : Option (List Str) :=
           if kind = 0 then
-            if elems < 0 then none else some (ls.drop ((elems.toNat + perline - 1) / perline))
+            -- `(elems + perline - 1) // perline` lines; `itertools.repeat(None, n)` with `n < 0` repeats nothing
+            some (ls.drop ((elems + (perline : Int) - 1) / (perline : Int)).toNat)
           else skipStrs (kind = 1) wper perline ls.length elems.toNat ls
         match after with
         | some (line' :: ls2) =>
